@@ -186,7 +186,7 @@ func (tree *Tree[T]) Remove(pattern string, methods ...string) {
 	} else {
 		for _, m := range methods {
 			switch m {
-			case http.MethodOptions: // OPTIONS 不作任何操作
+			case http.MethodOptions, http.MethodHead, methodNotAllowed: // OPTIONS、HEAD 和 405 由系统维护，不作任何操作
 			case http.MethodGet:
 				delete(child.handlers, http.MethodHead)
 				fallthrough
